@@ -1087,6 +1087,14 @@ public:
   {
     auto max_ptr = (typename T_Sbx::T_PointerType)(get_total_memory() - 1);
     auto idx = app_ptr_map.get_app_pointer_idx((void*)ptr, max_ptr);
+    // No owner exists for the token yet: release it again if the steps below
+    // refuse (abort)
+    bool token_has_owner = false;
+    auto release_token = detail::make_scope_exit([&] {
+      if (!token_has_owner) {
+        app_ptr_map.remove_app_ptr(idx);
+      }
+    });
     // The token stands for a pointer of type T*: translate it as such (not as
     // the pointee type T, which backends that tell function pointers from data
     // pointers by this type would treat as a function pointer when the
@@ -1097,15 +1105,12 @@ public:
     // plugins in the future In this case, we will have to come up with
     // something more clever to construct indexes that look like valid pointers
     // Add a check for now to make sure things work fine
-    if (!is_pointer_in_sandbox_memory(idx_as_ptr)) {
-      // no owner is created for this token: release it again
-      app_ptr_map.remove_app_ptr(idx);
-      detail::dynamic_check(false,
-                            "App pointers are not currently supported for this "
-                            "rlbox sandbox plugin. Please file a bug.");
-    }
+    detail::dynamic_check(is_pointer_in_sandbox_memory(idx_as_ptr),
+                          "App pointers are not currently supported for this "
+                          "rlbox sandbox plugin. Please file a bug.");
     auto ret = app_pointer<T*, T_Sbx>(
       &app_ptr_map, idx, reinterpret_cast<T*>(idx_as_ptr));
+    token_has_owner = true;
     return ret;
   }
 
